@@ -88,6 +88,36 @@ def run(ctx):
             else:
                 res.bad(k, "the fold path of %s (%s) never evaluates with the run-time kernel %s: folded and executed results can differ"
                         % (op, same_mod[0], kernel), brec.where())
+    # the fold function of an operator rebuilds only that operator (or passes an `op` parameter through): a fold that
+    # rewrites the expression into another operator changes its meaning for operand values the rewrite did not think of
+    from ..model import aggregates
+    from .variant import _const_variant
+    checked = 0
+    for key, row in table.items():
+        op, route = key.split("|")
+        if route != "run":
+            continue
+        var = op.split(":", 1)[-1]
+        mod = row[0].rsplit("::", 1)[0]
+        unary = op.startswith("Unary:")
+        for fid, fb in lib.bodies.items():
+            if not fid.startswith(mod + "::create_from_instruction"):
+                continue
+            for adt, is_un in (("instruction::bin_op::BinOperation", False), ("instruction::unary_operation::UnaryOperation", True)):
+                for _, st in aggregates(fb, adt):
+                    checked += 1
+                    rv = st["rv"]
+                    o = rv["ops"][rv["fields"].index("op")]
+                    v = _const_variant(fb, o, 0)
+                    k2 = "kernel:fold-rebuilds:%s|%s" % (op, fid.rsplit("::", 1)[-1])
+                    if is_un != unary:
+                        res.bad(k2, "the fold function of %s (%s) builds a %s operation: the folded program computes something else than "
+                                    "the operator it was written with" % (op, fid, "unary" if is_un else "binary"), fb.where(st.get("line")))
+                    elif v is not None and v != var:
+                        res.bad(k2, "the fold function of %s (%s) rebuilds the operation with operator %s" % (op, fid, v), fb.where(st.get("line")))
+                    else:
+                        res.ok(k2, fb.where(st.get("line")), "rebuilds %s" % (v or "the operator it was given"))
+    res.stats["fold_rebuilds_checked"] = checked
     res.floor(n, 60, "kernel_rows")
     # every BinOperator variant executed has a row
     for v in ea:
